@@ -121,13 +121,13 @@ Proof.
 Qed.
 
 (* ---- opening bracket, no list pending ---- *)
-Lemma step_open_unfold ntoks i st ug :
+Lemma step_open_unfold ntoks i st ug b :
   under_group_of st = Ok ug -> next_last_left st = None -> check_for_list st = false ->
   adj_ok (nodes st) (last_left st) ->
   forbidden (prev_sec st) S_StartGrouping false = false ->
   separated st && forbidden_separated (prev_sig st) S_StartGrouping false = false ->
-  step ntoks i TT_StartGroup st =
-    Ok (mkState (nodes st ++ [mkNode D_Group S_StartGrouping (next_parent st) None
+  step ntoks i (open_tok b) st =
+    Ok (mkState (nodes st ++ [mkNode (bdef b) S_StartGrouping (next_parent st) None
                                 (if Nat.leb ntoks (i + 1) then None else Some (length (nodes st) + 1)) (Some i)])
                 (Some (length (nodes st))) (Some (length (nodes st))) false (Some i) None
                 (group_stack st ++ [(length (nodes st), false)]) (Some (length (group_stack st)))
@@ -136,19 +136,19 @@ Proof.
   intros Hug Hnll Hcfl Hadj Hforb Hsep.
   destruct st as [ns np ll cfl lt nll gs cg ps psig sep sep_prev]. unfold under_group_of in Hug. fields_in_all.
   subst nll cfl. unfold step. fields. rewrite Hug. cbn [bind]. rewrite (adj_simpl ns ll ug ps psig Hadj). fields.
-  cbn [get_definition]. fields. rewrite Hforb. cbn [negb andb] in *. rewrite Hsep. fields.
-  cbn [definition_eqb definition_index N.eqb Pos.eqb]. rewrite app_last_match. reflexivity.
+  destruct b; cbn [get_definition open_tok bdef]; fields; rewrite Hforb; cbn [negb andb] in *; rewrite Hsep; fields;
+  cbn [definition_eqb definition_index N.eqb Pos.eqb]; rewrite app_last_match; reflexivity.
 Qed.
 
 (* ---- opening bracket with the implicit list pending ---- *)
-Lemma step_open_list_unfold ntoks i st ug :
+Lemma step_open_list_unfold ntoks i st ug b :
   under_group_of st = Ok ug -> check_for_list st = true ->
   adj_ok (nodes st) (last_left st) ->
   forbidden (prev_sec st) S_StartGrouping true = false ->
   separated st && forbidden_separated (prev_sig st) S_StartGrouping true = false ->
-  step ntoks i TT_StartGroup st =
+  step ntoks i (open_tok b) st =
     do ns <- make_list_node (length (nodes st)) (length (nodes st) + 1) st ug;
-    Ok (mkState (ns ++ [mkNode D_Group S_StartGrouping (Some (length (nodes st))) None
+    Ok (mkState (ns ++ [mkNode (bdef b) S_StartGrouping (Some (length (nodes st))) None
                           (Some (length (nodes st) + 1 + 1)) (Some i)])
                 (Some (length (nodes st) + 1)) (Some (length (nodes st) + 1)) false (Some i) None
                 (group_stack st ++ [(length (nodes st) + 1, false)]) (Some (length (group_stack st)))
@@ -157,20 +157,20 @@ Proof.
   intros Hug Hcfl Hadj Hforb Hsep.
   destruct st as [ns np ll cfl lt nll gs cg ps psig sep sep_prev]. unfold under_group_of in Hug. fields_in_all.
   subst cfl. unfold step. fields. rewrite Hug. cbn [bind]. rewrite (adj_simpl ns ll ug ps psig Hadj). fields.
-  cbn [get_definition]. fields. rewrite Hforb. cbn [negb andb] in *. rewrite Hsep. fields.
+  destruct b; cbn [get_definition open_tok bdef]; fields; rewrite Hforb; cbn [negb andb] in *; rewrite Hsep; fields;
   destruct (make_list_node _ _ _ ug) as [nsl| | |]; cbn [bind]; reflexivity.
 Qed.
 
 (* ---- closing bracket after a completed operand ---- *)
-Lemma step_close_unfold ntoks i st ug gs' g nlc sgn l ln :
+Lemma step_close_unfold ntoks i st ug b gs' g nlc sgn l ln :
   under_group_of st = Ok ug -> adj_ok (nodes st) (last_left st) ->
   forbidden (prev_sec st) S_EndGrouping (check_for_list st) = false ->
   separated st && forbidden_separated (prev_sig st) S_EndGrouping (check_for_list st) = false ->
   removelast_pair (group_stack st) = Some (gs', (g, nlc)) ->
-  nth_error (nodes st) g = Some sgn -> n_def sgn = D_Group ->
+  nth_error (nodes st) g = Some sgn -> n_def sgn = bdef b ->
   last_left st = Some l -> nth_error (nodes st) l = Some ln -> calm_def (n_def ln) = true ->
   opt_nat_eqb (n_right ln) (Some (length (nodes st))) = false ->
-  step ntoks i TT_EndGroup st =
+  step ntoks i (close_tok b) st =
     Ok (mkState (nodes st) (next_parent st) (Some g) nlc (Some i) None gs'
                 (match gs' with [] => None | _ :: _ => Some (length gs' - 1) end)
                 S_EndGrouping S_EndGrouping false (se_prev st)).
@@ -180,11 +180,11 @@ Proof.
   destruct st as [ns np ll cfl lt nll gs cg ps psig sep sep_prev]. unfold under_group_of in Hug. fields_in_all.
   subst ll. unfold step. fields. rewrite Hug. cbn [bind].
   rewrite (adj_simpl ns (Some l) ug ps psig Hadj). fields.
-  cbn [get_definition]. fields. rewrite Hforb. cbn [negb andb] in *. rewrite Hsep. fields.
-  rewrite Hrl, Hsgn, Hsd. cbn [expected_end token_type_eqb token_type_index N.eqb Pos.eqb negb].
-  rewrite Hln, Hright, C2. rewrite !andb_false_r. cbn [orb].
-  rewrite (upd_id ns l (fun _ => ln) ln Hln eq_refl). rewrite C3, C4. cbn [orb andb bind].
-  fields. reflexivity.
+  destruct b; cbn [get_definition close_tok bdef] in *; fields; rewrite Hforb; cbn [negb andb] in *; rewrite Hsep; fields;
+  rewrite Hrl, Hsgn, Hsd; cbn [expected_end token_type_eqb token_type_index N.eqb Pos.eqb negb];
+  rewrite Hln, Hright, C2; rewrite !andb_false_r; cbn [orb];
+  rewrite (upd_id ns l (fun _ => ln) ln Hln eq_refl); rewrite C3, C4; cbn [orb andb bind];
+  fields; reflexivity.
 Qed.
 
 (* ---- finite facts about suffix and prefix operator tokens and the list definition ---- *)
@@ -313,14 +313,14 @@ Lemma slc_operand st ug l ln :
   last_left st = Some l -> nth_error (nodes st) l = Some ln ->
   definition_eqb (n_def ln) D_SideEffect = false ->
   (is_value_like (n_def ln) = true \/ n_sec ln = S_UnarySuffix \/
-   (n_def ln = D_Group /\ opt_nat_eqb (Some l) ug = false)) ->
+   (exists b, n_def ln = bdef b /\ opt_nat_eqb (Some l) ug = false)) ->
   space_list_check st ug = Ok true.
 Proof.
   intros Hll Hln Hse H. unfold space_list_check. rewrite Hll, Hln, Hse. cbn [andb bind].
-  destruct H as [H|[H|[H1 H2]]].
+  destruct H as [H|[H|[b [H1 H2]]]].
   - rewrite H. reflexivity.
   - rewrite H. cbn [secondary_eqb secondary_index N.eqb Pos.eqb]. rewrite orb_true_r. reflexivity.
-  - rewrite H1, H2. reflexivity.
+  - rewrite H1, H2. destruct b; reflexivity.
 Qed.
 
 (* last_left is the node of an open frame (operator or open bracket): nothing changes *)
